@@ -16,6 +16,7 @@ package main
 //   create S P             CreateTopLevelBucket / NewBucket of the last name of path P
 //   delb   S P             DeleteTopLevelBucket / DeleteBucket
 //   has    S P             navigation TopLevelBucket(n1).Bucket(n2)… != nil
+//   hasf   S P             tx.FetchBucket(a fresh BucketMeta of path P) != nil
 //   put S P K V | get S P K | del S P K | clear S P | prefix S P K | names S P
 //   iter S P START LIMIT SCRIPT     SCRIPT = comma separated steps: n (Next) | s<hex> (Seek) | a (Next until false)
 //   iterp S P PREFIX SCRIPT         the same on bucket.NewIterator(db.BytesPrefix(PREFIX))
@@ -268,6 +269,13 @@ func kvNav(tx db.ReadTransaction, names []string) db.Bucket {
 	}
 	return b
 }
+
+// kvMeta is a BucketMeta as GetBucketMeta builds it: Paths = [depth, names…].
+type kvMeta struct{ paths []string }
+
+func (m *kvMeta) Paths() []string { return m.paths }
+func (m *kvMeta) Name() string    { return m.paths[len(m.paths)-1] }
+func (m *kvMeta) Depth() int      { return len(m.paths) - 1 }
 
 func kvEntries(es []*db.Entry, sorted bool) string {
 	items := make([]string, 0, len(es))
@@ -549,6 +557,15 @@ func (x *kvExec) Exec(a []string) string {
 			return "bad-op"
 		}
 		if kvNav(rt, names) == nil {
+			return "no"
+		}
+		return "yes"
+	case "hasf":
+		if len(a) != 3 || len(names) == 0 {
+			return "bad-op"
+		}
+		m := &kvMeta{paths: append([]string{strconv.Itoa(len(names))}, names...)}
+		if rt.FetchBucket(m) == nil {
 			return "no"
 		}
 		return "yes"
